@@ -16,17 +16,18 @@ contract("find_minimal_distance", params={"element": "int", "collection": "list:
          props=["C05", "C06"])
 
 contract("binary_insort", params={"collection": "list:ref:Message", "message": "ref:Message"},
-         requires=["forall(0, len(collection), lambda w: not is_none(collection[w].time))", "not is_none(message.time)",
-                   "forall(0, len(collection), lambda sa: forall(sa, len(collection), lambda sb: collection[sa].time <= collection[sb].time))"],
+         requires=["forall(0, len(collection), lambda w: not is_none(collection[w].time))", "not is_none(message.time)"],
          modifies={"@lists": "collection"},
-         ghost={},
          ensures=[("length", "len(collection) == old(len(collection)) + 1"),
-                  ("inserted_after_equals", "exists(0, len(collection), lambda p: collection[p] == message"
-                                            " and forall(0, p, lambda j: collection[j] == old(collection[j]) and collection[j].time <= message.time)"
-                                            " and forall(p + 1, len(collection), lambda j: collection[j] == old(collection[j - 1]) and message.time < collection[j].time))"),
-                  ("still_sorted", "forall(0, len(collection), lambda sa: forall(sa, len(collection), lambda sb: collection[sa].time <= collection[sb].time))")],
+                  ("inserted", "exists(0, len(collection), lambda p: collection[p] == message"
+                               " and forall(0, p, lambda j: collection[j] == old(collection[j]))"
+                               " and forall(p + 1, len(collection), lambda j: collection[j] == old(collection[j - 1]))"
+                               " and implies(old(sorted_by_time(collection)),"
+                               "             forall(0, p, lambda j: collection[j].time <= message.time) and forall(p + 1, len(collection), lambda j: message.time < collection[j].time)))"),
+                  ("sorted_kept", "implies(old(sorted_by_time(collection)),"
+                                  " sorted_by_time(collection))")],
          loops={"L0": dict(fingerprint="while lo < hi", dec="hi - lo", inv=[
              ("bounds", "0 <= lo and lo <= hi and hi <= len(collection)"),
-             ("left_le", "forall(0, lo, lambda j: collection[j].time <= message.time)"),
-             ("right_gt", "forall(hi, len(collection), lambda j: message.time < collection[j].time)")])},
+             ("left_le", "implies(sorted_by_time(collection), forall(0, lo, lambda j: collection[j].time <= message.time))"),
+             ("right_gt", "implies(sorted_by_time(collection), forall(hi, len(collection), lambda j: message.time < collection[j].time))")])},
          props=["C01", "C04"])
